@@ -14,7 +14,9 @@ def module_desc(mod, name, parent, ig, level):
         names = ['Blank', 'Junk']
     elif ig == 'both':
         names = ['Blank%d' % level, 'Junk%d' % level] if level == 1 else None   # base named, derived anonymous
-    return render.grammar(g, name=name, extends=parent, ign_names=names, order=sorted(rules.keys()))
+    # with anonymous patterns in several levels they are declared first everywhere (same position in each module)
+    return render.grammar(g, name=name, extends=parent, ign_names=names, order=sorted(rules.keys()),
+                          ign_first=(ig == 'bothanon'))
 
 
 def chain_worker(case):
